@@ -291,6 +291,7 @@ func (t *Ty) Depth() int {
 
 type Gen struct {
 	R *rand.Rand
+	Boundary bool // force byte-string / string lengths at the DER length-field boundaries
 }
 
 var leafKinds = []string{"bool", "int", "int32", "int64", "bigint", "bitstring", "oid", "enum", "flag", "time",
@@ -659,6 +660,9 @@ var printableChars = "abcXYZ019 '()+,-./:=?"
 func (g *Gen) str(tag string) []byte {
 	r := g.R
 	n := r.Intn(6)
+	if g.Boundary && r.Intn(2) == 0 {
+		n = []int{127, 128, 255, 256}[r.Intn(4)] - r.Intn(3)*r.Intn(6)
+	}
 	kind := "printable"
 	for _, p := range strings.Split(tag, ",") {
 		switch p {
@@ -816,6 +820,20 @@ func (g *Gen) Value(t *Ty, tag string) *Val {
 		if r.Intn(30) == 0 {
 			b = make([]byte, 127+r.Intn(200))
 		}
+		if r.Intn(12) == 0 || g.Boundary {
+			// content lengths at and around the points where the DER length field grows or has 0xff as
+			// its top octet (127/128, 255/256, 0xff00..0xffff/0x10000), also a few bytes below them so
+			// that an ENCLOSING element's length lands there
+			base := []int{127, 128, 255, 256, 255, 256}[r.Intn(6)]
+			if r.Intn(25) == 0 {
+				base = []int{0xff00, 0xffff, 0x10000, 0xfeff}[r.Intn(4)]
+			}
+			if r.Intn(2) == 0 {
+				base -= r.Intn(14)
+			}
+			b = make([]byte, base)
+			r.Read(b[:minInt(len(b), 16)])
+		}
 		if len(b) == 0 && strings.Contains(tag, "omitempty") {
 			return &Val{K: "nil"} // an omitted empty slice decodes as nil
 		}
@@ -860,6 +878,13 @@ func (g *Gen) Value(t *Ty, tag string) *Val {
 		return v
 	}
 	panic("Value " + t.Kind)
+}
+
+func minInt(a, b int) int {
+	if a < b {
+		return a
+	}
+	return b
 }
 
 // HasSetOf reports whether marshalling v of type t reaches a SET OF with two or more elements (D6).
